@@ -853,3 +853,325 @@ Proof.
       apply Forall_app. split; [constructor; [apply rparam_filter; exact F | constructor] | apply str_items_rparam; assumption].
   - rewrite !gwire_app, <- !wire_gwire. cbn [gwire]. rewrite <- !app_assoc. cbn [app]. reflexivity.
 Qed.
+
+(* ---------- the failing class is exact: EVERY filter with a double quote in a value is rejected ---------- *)
+
+(* escape_filter_value, character by character, for all values *)
+Definition efv_char (c : N) : bytes :=
+  if c =? BS then [BS; BS; BS; BS] else if c =? DQ then [BS; BS; DQ] else [c].
+
+Lemma escape_filter_value_chars v : escape_filter_value v = flat_map efv_char v.
+Proof.
+  unfold escape_filter_value. destruct filter_value_tables as (-> & GB & GD).
+  assert (R : fold_left (fun acc cr => replace_byte (fst cr) (snd cr) acc) [(BS, [BS; BS; BS; BS]); (DQ, [BS; BS; DQ])] v
+              = flat_map efv_char v).
+  { cbn [fold_left fst snd]. induction v as [|c v IH]; [reflexivity|].
+    change (c :: v) with ([c] ++ v). rewrite !replace_byte_app, flat_map_app, IH. f_equal.
+    unfold replace_byte, efv_char. cbn [flat_map app].
+    destruct (c =? BS) eqn:E; [reflexivity|]. cbn [flat_map app]. destruct (c =? DQ); reflexivity. }
+  destruct (existsb _ v) eqn:G; [exact R|].
+  clear R. induction v as [|c v IH]; [reflexivity|]. cbn [existsb flat_map] in *.
+  apply orb_false_iff in G as [G1 G2]. rewrite <- (IH G2). unfold efv_char.
+  destruct (c =? BS) eqn:E1; [apply N.eqb_eq in E1; subst c; congruence|].
+  destruct (c =? DQ) eqn:E2; [apply N.eqb_eq in E2; subst c; congruence|]. reflexivity.
+Qed.
+
+Lemma efv_char_esc c : (c =? DQ) = false -> efv_char c = esc (esc [c]).
+Proof.
+  intros E. unfold efv_char, esc. cbn [flat_map app]. rewrite E, orb_false_r.
+  destruct (c =? BS) eqn:E1; [apply N.eqb_eq in E1; subst c; reflexivity|]. cbn [flat_map app]. rewrite E, E1. reflexivity.
+Qed.
+
+(* texts that are an escaped string / that contain a quote which is NOT escaped for the outer layer *)
+Definition Resc (s : bytes) : Prop := exists x, s = esc x.
+Definition Rbad (s : bytes) : Prop := exists x s', s = esc x ++ [BS; BS; DQ] ++ s'.
+
+Lemma Resc_app a c : Resc a -> Resc c -> Resc (a ++ c).
+Proof. intros [x ->] [y ->]. exists (x ++ y). rewrite esc_app. reflexivity. Qed.
+
+Lemma Resc_Rbad_app a c : Resc a -> Rbad c -> Rbad (a ++ c).
+Proof. intros [x ->] (y & s' & ->). exists (x ++ y), s'. rewrite esc_app, <- !app_assoc. reflexivity. Qed.
+
+Lemma Rbad_app a c : Rbad a -> Rbad (a ++ c).
+Proof. intros (x & s' & ->). exists x, (s' ++ c). rewrite <- !app_assoc. reflexivity. Qed.
+
+Lemma Resc_plain s : forallb plain s = true -> Resc s.
+Proof. intros H. exists s. symmetry. apply esc_plain. exact H. Qed.
+
+Lemma efv_R v : if existsb (N.eqb DQ) v then Rbad (flat_map efv_char v) else Resc (flat_map efv_char v).
+Proof.
+  induction v as [|c v IH]; [exists []; reflexivity|]. cbn [existsb flat_map]. rewrite N.eqb_sym.
+  destruct (c =? DQ) eqn:E; cbn [orb].
+  - apply N.eqb_eq in E. subst c. exists [], (flat_map efv_char v). reflexivity.
+  - assert (Rc : Resc (efv_char c)) by (eexists; apply efv_char_esc; exact E).
+    destruct (existsb (N.eqb DQ) v); [apply Resc_Rbad_app | apply Resc_app]; assumption.
+Qed.
+
+Definition leaf_dq (tv : tag * bytes) : bool := existsb (N.eqb DQ) (snd tv).
+Definition has_dq (f : ftype) : bool := existsb leaf_dq (leaves f).
+
+Definition code_text : ftype -> bytes := text (flat_map efv_char) [BS; DQ].
+
+Lemma render_is_code_text f : render_ftype f = code_text f.
+Proof.
+  rewrite render_is_text. apply text_ext. apply Forall_forall. intros tv _. apply escape_filter_value_chars.
+Qed.
+
+Lemma code_text_R f : Forall (fun tv => valid_tagb (fst tv) = true) (leaves f) ->
+  if has_dq f then Rbad (code_text f) else Resc (code_text f).
+Proof.
+  unfold code_text, has_dq. induction f as [t o v|g IH|l IH] using ftype_ind'; intros H.
+  - cbn [leaves] in *. inversion H as [|? ? Ht _]; subst. cbn [fst snd existsb text leaf_dq] in *. rewrite orb_false_r.
+    pose proof (efv_R v) as Rv.
+    assert (R1 : Resc ([LP] ++ tag_as_str t ++ [SP] ++ operator_str o ++ [SP] ++ [BS; DQ])).
+    { repeat apply Resc_app; try (apply Resc_plain; reflexivity).
+      - apply Resc_plain. apply valid_tag_plain. exact Ht.
+      - apply Resc_plain. apply operator_plain.
+      - exists [DQ]. reflexivity. }
+    assert (R2 : Resc ([BS; DQ] ++ [RP])) by (exists [DQ; RP]; reflexivity).
+    replace ([LP] ++ tag_as_str t ++ [SP] ++ operator_str o ++ [SP] ++ [BS; DQ] ++ flat_map efv_char v ++ [BS; DQ] ++ [RP])
+      with (([LP] ++ tag_as_str t ++ [SP] ++ operator_str o ++ [SP] ++ [BS; DQ]) ++ flat_map efv_char v ++ ([BS; DQ] ++ [RP]))
+      by (rewrite <- !app_assoc; reflexivity).
+    destruct (existsb (N.eqb DQ) v).
+    + apply Resc_Rbad_app; [exact R1|]. apply Rbad_app. exact Rv.
+    + apply Resc_app; [exact R1|]. apply Resc_app; assumption.
+  - cbn [leaves text] in *. specialize (IH H).
+    assert (R1 : Resc [LP; BANG]) by (apply Resc_plain; reflexivity).
+    assert (R2 : Resc [RP]) by (apply Resc_plain; reflexivity).
+    destruct (existsb leaf_dq (leaves g)).
+    + apply Resc_Rbad_app; [exact R1|]. apply Rbad_app. exact IH.
+    + apply Resc_app; [exact R1|]. apply Resc_app; assumption.
+  - rewrite leaves_and in *. apply Forall_flat_map' in H. cbn [text].
+    assert (R1 : Resc [LP]) by (apply Resc_plain; reflexivity).
+    assert (R2 : Resc [RP]) by (apply Resc_plain; reflexivity).
+    assert (G : forall first,
+      if existsb leaf_dq (flat_map leaves l)
+      then Rbad (and_items first (map (text (flat_map efv_char) [BS; DQ]) l))
+      else Resc (and_items first (map (text (flat_map efv_char) [BS; DQ]) l))).
+    { induction IH as [|c r Pc _ IHr]; intros first; [exists []; reflexivity|].
+      inversion H as [|? ? Hc Hr]; subst. specialize (Pc Hc). specialize (IHr Hr false).
+      cbn [flat_map map and_items]. rewrite existsb_app.
+      assert (Rs : Resc (if first then [] else b " AND ")) by (destruct first; apply Resc_plain; reflexivity).
+      destruct (existsb leaf_dq (leaves c)); cbn [orb].
+      - apply Resc_Rbad_app; [exact Rs|]. apply Rbad_app. exact Pc.
+      - destruct (existsb leaf_dq (flat_map leaves r)).
+        + apply Resc_Rbad_app; [exact Rs|]. apply Resc_Rbad_app; assumption.
+        + apply Resc_app; [exact Rs|]. apply Resc_app; assumption. }
+    specialize (G true). destruct (existsb leaf_dq (flat_map leaves l)).
+    + apply Resc_Rbad_app; [exact R1|]. apply Rbad_app. exact G.
+    + apply Resc_app; [exact R1|]. apply Resc_app; assumption.
+Qed.
+
+(* every double quote in the written text is preceded by a non-blank byte *)
+Fixpoint gdn (prev_ok : bool) (s : bytes) : bool :=
+  match s with
+  | [] => true
+  | c :: r => (if c =? DQ then prev_ok else true) && gdn (negb (is_ws c)) r
+  end.
+
+Lemma gdn_mono s p : gdn false s = true -> gdn p s = true.
+Proof.
+  destruct s as [|c r]; [reflexivity|]. cbn [gdn]. intros H. apply andb_true_iff in H as [H1 H2].
+  rewrite H2, andb_true_r. destruct (c =? DQ); [discriminate | reflexivity].
+Qed.
+
+Lemma gdn_app p a c : gdn p a = true -> gdn false c = true -> gdn p (a ++ c) = true.
+Proof.
+  revert p. induction a as [|x a IH]; intros p Ha Hc; [apply gdn_mono; exact Hc|].
+  cbn [app gdn] in *. apply andb_true_iff in Ha as [H1 H2]. rewrite H1, (IH _ H2 Hc). reflexivity.
+Qed.
+
+Lemma gdn_suffix p a c r : gdn p (a ++ c :: r) = true -> gdn (negb (is_ws c)) r = true.
+Proof.
+  revert p. induction a as [|x a IH]; intros p H; cbn [app gdn] in H; apply andb_true_iff in H as [_ H]; [exact H | eapply IH; exact H].
+Qed.
+
+Lemma gdn_nodq p s : existsb (N.eqb DQ) s = false -> gdn p s = true.
+Proof.
+  revert p. induction s as [|c s IH]; intros p H; [reflexivity|]. cbn [existsb gdn] in *.
+  apply orb_false_iff in H as [H1 H2]. rewrite N.eqb_sym in H1. rewrite H1, (IH _ H2). reflexivity.
+Qed.
+
+Lemma gdn_snoc p t l : gdn p (t ++ [l]) = true -> is_ws l = false -> gdn p ((t ++ [l]) ++ [DQ]) = true.
+Proof.
+  revert p. induction t as [|c t IH]; intros p H W; cbn [app gdn] in *.
+  - apply andb_true_iff in H as [H1 _]. rewrite H1. change (DQ =? DQ) with true. rewrite W. reflexivity.
+  - apply andb_true_iff in H as [H1 H2]. rewrite H1. cbn [andb]. apply IH; assumption.
+Qed.
+
+Lemma plain_nodq s : forallb plain s = true -> existsb (N.eqb DQ) s = false.
+Proof.
+  induction s as [|c s IH]; [reflexivity|]. cbn [forallb existsb]. intros H. apply andb_true_iff in H as [H1 H2].
+  rewrite (IH H2), orb_false_r. unfold plain in H1. apply negb_true_iff in H1. apply orb_false_iff in H1 as [_ H1].
+  rewrite N.eqb_sym. exact H1.
+Qed.
+
+Lemma efv_gdn v : gdn false (flat_map efv_char v) = true.
+Proof.
+  induction v as [|c v IH]; [reflexivity|]. cbn [flat_map]. apply gdn_app; [|exact IH].
+  unfold efv_char. destruct (c =? BS) eqn:E1; [reflexivity|]. destruct (c =? DQ) eqn:E2; [reflexivity|].
+  cbn [gdn]. rewrite E2. reflexivity.
+Qed.
+
+Lemma code_text_gdn f : Forall (fun tv => valid_tagb (fst tv) = true) (leaves f) -> gdn false (code_text f) = true.
+Proof.
+  unfold code_text. induction f as [t o v|g IH|l IH] using ftype_ind'; intros H.
+  - cbn [leaves] in H. inversion H as [|? ? Ht _]; subst. cbn [fst] in Ht. cbn [text].
+    repeat (apply gdn_app); try reflexivity.
+    + apply gdn_nodq, plain_nodq, valid_tag_plain. exact Ht.
+    + apply gdn_nodq, plain_nodq, operator_plain.
+    + apply efv_gdn.
+  - cbn [leaves] in H. cbn [text]. repeat (apply gdn_app); try reflexivity. apply IH. exact H.
+  - rewrite leaves_and in H. apply Forall_flat_map' in H. cbn [text].
+    assert (A : forall first, gdn false (and_items first (map (text (flat_map efv_char) [BS; DQ]) l)) = true).
+    { induction IH as [|c r Pc _ IHr]; intros first; [reflexivity|].
+      inversion H as [|? ? Hc Hr]; subst. cbn [map and_items].
+      repeat (apply gdn_app); [destruct first; reflexivity | apply Pc; exact Hc | apply IHr; exact Hr]. }
+    repeat (apply gdn_app); try reflexivity. apply A.
+Qed.
+
+Lemma text_last val q f : exists t, text val q f = t ++ [RP].
+Proof.
+  destruct f as [t o v|g|l]; cbn [text].
+  - exists ([LP] ++ tag_as_str t ++ [SP] ++ operator_str o ++ [SP] ++ q ++ val v ++ q). rewrite <- !app_assoc. reflexivity.
+  - exists ([LP; BANG] ++ text val q g). rewrite <- !app_assoc. reflexivity.
+  - exists ([LP] ++ and_items true (map (text val q) l)). rewrite <- !app_assoc. reflexivity.
+Qed.
+
+(* MPD's tokenizer after a blank: the next parameter cannot start with a quote, and a quote inside an
+   unquoted parameter is an error *)
+Lemma strip_left_gdn r : gdn false r = true -> existsb (N.eqb DQ) r = true ->
+  exists c' r', strip_left r = c' :: r' /\ is_ws c' = false /\ (c' =? DQ) = false /\
+                gdn true r' = true /\ existsb (N.eqb DQ) r' = true /\ (length r' < length r)%nat.
+Proof.
+  induction r as [|c r IH]; intros G E; [discriminate|]. cbn [gdn existsb strip_left length] in *.
+  apply andb_true_iff in G as [G1 G2].
+  destruct (is_ws c) eqn:W.
+  - assert (Ec : (DQ =? c) = false) by (destruct (DQ =? c) eqn:X; [apply N.eqb_eq in X; subst c; discriminate | reflexivity]).
+    rewrite Ec in E. cbn [orb negb] in *. destruct (IH G2 E) as (c' & r' & A & B & C & D & F & L).
+    exists c', r'. repeat split; try assumption. lia.
+  - cbn [negb] in G2. exists c, r. destruct (c =? DQ) eqn:Ec; [discriminate|].
+    rewrite N.eqb_sym, Ec in E. cbn [orb] in E. repeat split; try assumption. lia.
+Qed.
+
+Lemma scan_gdn ok r : ok DQ = false -> gdn true r = true -> existsb (N.eqb DQ) r = true ->
+  scan ok r = None \/
+  exists t c' r', scan ok r = Some (t, c' :: r') /\ is_ws c' = false /\ (c' =? DQ) = false /\
+                  gdn true r' = true /\ existsb (N.eqb DQ) r' = true /\ (length r' < length r)%nat.
+Proof.
+  intros Hok. induction r as [|c r IH]; intros G E; [discriminate|]. cbn [gdn existsb scan length] in *.
+  apply andb_true_iff in G as [G1 G2].
+  destruct (is_ws c) eqn:W.
+  - assert (Ec : (DQ =? c) = false) by (destruct (DQ =? c) eqn:X; [apply N.eqb_eq in X; subst c; discriminate | reflexivity]).
+    rewrite Ec in E. cbn [orb negb] in *. destruct (strip_left_gdn r G2 E) as (c' & r' & A & B & C & D & F & L).
+    right. exists [], c', r'. rewrite A. repeat split; try assumption. lia.
+  - cbn [negb] in G2. destruct (c =? DQ) eqn:Ec.
+    + apply N.eqb_eq in Ec. subst c. rewrite Hok. left. reflexivity.
+    + rewrite N.eqb_sym, Ec in E. cbn [orb] in E. destruct (ok c); [|left; reflexivity].
+      destruct (IH G2 E) as [->|(t & c' & r' & A & B & C & D & F & L)]; [left; reflexivity|].
+      right. exists (c :: t), c', r'. rewrite A. repeat split; try assumption. lia.
+Qed.
+
+Lemma params_gdn n : forall fuel c r, (length r < n)%nat ->
+  is_ws c = false -> (c =? DQ) = false -> gdn true r = true -> existsb (N.eqb DQ) r = true ->
+  params fuel (c :: r) = None.
+Proof.
+  induction n as [|n IH]; intros fuel c r L W Ec G E; [lia|].
+  destruct fuel as [|fuel]; [reflexivity|]. cbn [params next_param]. rewrite Ec. unfold next_unquoted.
+  destruct (valid_unquoted_char c); [|reflexivity].
+  destruct (scan_gdn valid_unquoted_char r eq_refl G E) as [->|(t & c' & r' & A & B & C & D & F & L')]; [reflexivity|].
+  rewrite A. rewrite (IH fuel c' r'); [reflexivity | lia | assumption..].
+Qed.
+
+(* NextString on an escaped string followed by a closing quote, whatever comes after *)
+Lemma string_body_esc_gen a tail :
+  string_body (esc a ++ DQ :: tail) =
+  match tail with [] => Some (a, []) | d :: _ => if is_ws d then Some (a, strip_left tail) else None end.
+Proof.
+  induction a as [|c a IH].
+  - cbn [esc flat_map app string_body]. change (DQ =? DQ) with true. reflexivity.
+  - unfold esc. cbn [flat_map]. fold (esc a).
+    destruct (c =? BS) eqn:E1; [|destruct (c =? DQ) eqn:E2]; cbn [orb app string_body].
+    + change (BS =? DQ) with false. change (BS =? BS) with true. cbv iota. rewrite IH. destruct tail as [|d t]; [reflexivity|]. destruct (is_ws d); reflexivity.
+    + change (BS =? DQ) with false. change (BS =? BS) with true. cbv iota. rewrite IH. destruct tail as [|d t]; [reflexivity|]. destruct (is_ws d); reflexivity.
+    + rewrite E2, E1, IH. destruct tail as [|d t]; [reflexivity|]. destruct (is_ws d); reflexivity.
+Qed.
+
+Theorem dquote_rejected name c0 c f :
+  wf_bytes name -> build name = inr c0 ->
+  wfb f = true -> Forall (fun tv => valid_tagb (fst tv) = true) (leaves f) ->
+  has_dq f = true ->
+  argument_filter c0 f = Sent c ->
+  mpd_tokenize (send_bytes c) = None.
+Proof.
+  intros Wn Hb HW HT HD HS.
+  apply build_ok_iff in Hb as (-> & Hfo & Hcs & _).
+  unfold argument_filter, render_filter in HS. rewrite (wf_and_ok f HW) in HS.
+  rewrite render_is_code_text in HS.
+  destruct (add_argument_raw_cases name ([DQ] ++ code_text f ++ [DQ])) as [(i & E & _)|(E & F)]; rewrite E in HS; [discriminate|].
+  inversion HS; subst c; clear HS E.
+  assert (Hname : Forall (fun x => valid_word_char x = true /\ is_ws x = false /\ x <> LF /\ x <> 0) name).
+  { apply Forall_forall. intros x Hin. unfold wf_bytes in Wn. rewrite Forall_forall in Wn, Hcs.
+    destruct (command_charset_plain x (Wn x Hin) (Hcs x Hin)) as (A & B & C & _).
+    split; [apply command_charset_word; auto | auto]. }
+  assert (Hline : mpd_line (send_bytes (name ++ [SP] ++ [DQ] ++ code_text f ++ [DQ])) = name ++ [SP] ++ [DQ] ++ code_text f ++ [DQ]).
+  { apply mpd_line_send.
+    - apply Forall_app. split; [eapply Forall_impl; [|exact Hname]; cbn; tauto|].
+      constructor; [split; discriminate|]. eapply Forall_impl; [|exact F]. intros x Hx. apply reject_free. exact Hx.
+    - rewrite !app_assoc. apply ends_app. exists DQ, []. split; reflexivity. }
+  cbn [app] in Hline. unfold mpd_tokenize. rewrite Hline.
+  destruct name as [|n0 n']; [contradiction|]. cbn [first_ok] in Hfo.
+  assert (Hl : valid_word_first n0 = true) by (apply first_charset_letter; [inversion Wn; assumption | exact Hfo]).
+  cbn [app next_word]. rewrite Hl. inversion Hname as [|? ? _ Hn']; subst.
+  rewrite (scan_word n' (SP :: DQ :: code_text f ++ [DQ])); [| eapply Forall_impl; [|exact Hn']; cbn; tauto | right; eexists; reflexivity].
+  change (strip_left (SP :: DQ :: code_text f ++ [DQ])) with (DQ :: code_text f ++ [DQ]).
+  (* the text: an escaped string, then the quote that closes the argument too early *)
+  pose proof (code_text_R f HT) as R. unfold has_dq in HD. fold (has_dq f) in R. unfold has_dq in R. rewrite HD in R.
+  destruct R as (x & s' & ET).
+  pose proof (code_text_gdn f HT) as G.
+  destruct (text_last (flat_map efv_char) [BS; DQ] f) as [tl EL]. fold (code_text f) in EL.
+  assert (G' : gdn false (code_text f ++ [DQ]) = true).
+  { rewrite EL. apply gdn_snoc; [rewrite <- EL; exact G | reflexivity]. }
+  assert (ED : code_text f ++ [DQ] = esc (x ++ [BS]) ++ DQ :: (s' ++ [DQ])).
+  { rewrite ET, esc_app, <- !app_assoc. reflexivity. }
+  cbn [length params next_param]. change (DQ =? DQ) with true. cbv iota.
+  rewrite ED, string_body_esc_gen.
+  destruct (s' ++ [DQ]) as [|d tail'] eqn:Etail; [destruct s'; discriminate|].
+  destruct (is_ws d) eqn:Wd; [|reflexivity].
+  rewrite ED in G'. apply gdn_suffix in G'. change (negb (is_ws DQ)) with true in G'.
+  cbn [gdn] in G'. apply andb_true_iff in G' as [_ G2]. rewrite Wd in G2. cbn [negb] in G2.
+  assert (Dd : (DQ =? d) = false) by (destruct (DQ =? d) eqn:X; [apply N.eqb_eq in X; subst d; discriminate | reflexivity]).
+  assert (Et : existsb (N.eqb DQ) tail' = true).
+  { assert (X : existsb (N.eqb DQ) (d :: tail') = true).
+    { rewrite <- Etail. rewrite existsb_app. cbn [existsb]. change (DQ =? DQ) with true. apply orb_true_r. }
+    cbn [existsb] in X. rewrite Dd in X. exact X. }
+  destruct (strip_left_gdn tail' G2 Et) as (c' & r' & A & B & C & D & F' & L).
+  cbn [strip_left]. rewrite Wd, A.
+  rewrite (params_gdn (S (length r')) _ c' r' ltac:(lia) B C D F'). reflexivity.
+Qed.
+
+Lemma has_dq_false f : has_dq f = false <-> Forall (fun tv => no_dq (snd tv) = true) (leaves f).
+Proof.
+  unfold has_dq. induction (leaves f) as [|tv l IH]; cbn [existsb]; [split; auto|].
+  unfold leaf_dq at 1, no_dq. split.
+  - intros H. apply orb_false_iff in H as [H1 H2]. constructor; [rewrite H1; reflexivity | apply IH; exact H2].
+  - intros H. inversion H as [|? ? H1 H2]; subst. apply negb_true_iff in H1. rewrite H1. apply IH. exact H2.
+Qed.
+
+(* for filters with MPD-word tags and values below MPD's length limit that were sent: the server reads
+   back what was built IF AND ONLY IF no value holds a double quote *)
+Theorem roundtrip_iff lenient name c0 c f :
+  wf_bytes name -> build name = inr c0 -> wfb f = true ->
+  Forall leaf_ok (leaves f) ->
+  argument_filter c0 f = Sent c ->
+  ((exists e, mpd_tokenize (send_bytes c) = Some [name; e] /\ mpd_parse_filter_gen lenient e = Some (shape_of f, []))
+   <-> has_dq f = false).
+Proof.
+  intros Wn Hb HW HL HS. split.
+  - intros (e & T & _). destruct (has_dq f) eqn:D; [|reflexivity].
+    rewrite (dquote_rejected name c0 c f Wn Hb HW) in T; [discriminate | | exact D | exact HS].
+    eapply Forall_impl; [|exact HL]. intros tv [A _]. exact A.
+  - intros D. exists (inner_text f). apply (filter_roundtrip lenient name c0 c f Wn Hb HW); [|exact HS].
+    apply has_dq_false in D. rewrite Forall_forall in *. intros tv Hin. destruct (HL tv Hin) as [A B].
+    split; [exact A | split; [apply D; exact Hin | exact B]].
+Qed.
